@@ -258,7 +258,7 @@ func isEntryPoint(fn *ssa.Function) bool {
 
 // runEffectCheck produces the effect obligations. forbidEntry: effects no entry point (of the given
 // module filter) may declare; entryFilter selects the packages whose entry points are constrained.
-func runEffectCheck(p *Program, label string, forbidEntry map[string]bool, entryFilter func(pkg string) bool) *FuncReport {
+func runEffectCheck(p *Program, label string, forbidEntry map[string]bool, entryFilter func(pkg string) bool, allowEntry ...func(key string) bool) *FuncReport {
 	ec := &effectChecker{p: p, declared: map[string][]string{}, pkgDef: map[string][]string{}}
 	for _, d := range p.Specs.Effects {
 		if strings.HasPrefix(d.Key, "package:") {
@@ -291,6 +291,10 @@ func runEffectCheck(p *Program, label string, forbidEntry map[string]bool, entry
 			var bad []string
 			for _, e := range decl {
 				if forbidEntry[e] {
+					if len(allowEntry) > 0 && allowEntry[0](key) {
+						// this entry point is one of the operations the property allows to have the effect
+						continue
+					}
 					if e == EffRand && isQuery(fn) {
 						// a gRPC query cannot change state; a fresh random identifier in a query answer
 						// (CreateReferenceId) is its documented behaviour and is listed, not flagged
